@@ -38,6 +38,7 @@ int main(int argc, char** argv)
     FILE* out = fopen(argv[2], "w");
     if (!in || !out) return 2;
     vh_install(out);
+    setvbuf(out, NULL, _IOLBF, 0);      // a sanitizer abort does not flush stdio: every completed call must already be in the log
     PlatformSpecificFPuts = capture_fputs;
     PlatformSpecificFlush = no_flush;
 
